@@ -12,6 +12,9 @@ request:  `<mode> <arg> <tok> <tok> ...`
   `g:<key>:<f64 bits hex>`           `register_gauge` + `set`
   `h:<key>:<f64 bits hex>`           `register_histogram` + `record(f64)` (the `f64 → u32` clamp of `HistogramFn`)
   `d:<name>:<unit>`                  `describe_*` (the three share one map); unit `0` = `None`
+  `hm:<key>:<f64 bits hex>:<n>`      `register_histogram` + `record_many(f64, n)`
+  `ca:<key>:<n>`                     `register_counter` + `absolute(n)`
+  `gi:<key>:<bits>` `gd:<key>:<bits>` `register_gauge` + `increment(f64)` / `decrement(f64)`
   `R`                                a whole readout
   reply: one entry per `R`, joined by ` # ` (`-` when there is none); entry = `ts=<0|1>;split=<0|1>` then one
   `;<kind>|<name>|<dims>|<unit>|<observations>` per written value (kind `C`/`G`/`H`; dims `k=v,…` or `-`; unit id or
@@ -73,6 +76,10 @@ def parseOp (tok : String) : Option (List Op) :=
   | ["g", k, b] => do let k ← parseKey k; pure [.ev (.regG k), .ev (.gset k (← parseHex b))]
   | ["h", k, b] => do let k ← parseKey k; pure [.ev (.regH k), .ev (.hrec k (clampF64 (← parseHex b)))]
   | ["d", nm, u] => do pure [.ev (.describe (← nm.toNat?) (← u.toNat?))]
+  | ["hm", k, b, n] => do let k ← parseKey k; pure [.ev (.regH k), .recordMany k (clampF64 (← parseHex b)) (← n.toNat?)]
+  | ["ca", k, n] => do let k ← parseKey k; pure [.ev (.regC k), .absolute k (← n.toNat?)]
+  | ["gi", k, b] => do let k ← parseKey k; pure [.ev (.regG k), .gaugeAdd k false (← parseHex b)]
+  | ["gd", k, b] => do let k ← parseKey k; pure [.ev (.regG k), .gaugeAdd k true (← parseHex b)]
   | _ => none
 
 def ovStr : OV → String
